@@ -77,6 +77,18 @@ impl<'a> AlnWriter<'a> {
         self.seq_out.len()
     }
 
+    /// Verification hook: (next_pos, curr_chrom, last_mapped, last_written, chrom_offset).
+    #[cfg(feature = "verif-hooks")]
+    pub fn verif_state(&self) -> (usize, usize, usize, usize, usize) {
+        (
+            self.next_pos,
+            self.curr_chrom,
+            self.last_mapped,
+            self.last_written,
+            self.chrom_offset,
+        )
+    }
+
     // Fill fwd bases, and any skipped over.
     // e.g. with split 7-mers perfectly matching
     // CCGA AAGT
